@@ -159,6 +159,10 @@ func (c13) Components() (real, stub []string) {
 		[]string{"simulated clock for time.Now (look-back window)", "RecordingReport: protocol-recording stub of backtest.Report", "scripted stub strategies", "FaultRepo-ordered Assets()", "scheduler: simrt controller"}
 }
 
+// asset names: tickers carry punctuation in practice; names that differ only by punctuation
+// must still be reported (and written to files) separately
+var c13Names = []string{"A", "B:1", "B_1", "C*x", "D"}
+
 var c13Strats = []string{"scripted", "scripted", "strategy.BuyAndHold", "trend.Macd", "momentum.Rsi", "trend.Apo", "volume.ForceIndex", "trend.Kdj"}
 
 func (c13) Gen(rng *rand.Rand, tier string, k int) *Case {
@@ -169,7 +173,7 @@ func (c13) Gen(rng *rand.Rand, tier string, k int) *Case {
 	na := 1 + rng.Intn(5)
 	for i := 0; i < na; i++ {
 		n := 3 + rng.Intn(lastDays+10)
-		a := AssetSpec{Name: string(rune('A' + i)), SrcN: n, SrcFrom: -(rng.Intn(lastDays + 12)), Seed: rng.Int63n(1 << 30)}
+		a := AssetSpec{Name: c13Names[i], SrcN: n, SrcFrom: -(rng.Intn(lastDays + 12)), Seed: rng.Int63n(1 << 30)}
 		switch rng.Intn(8) {
 		case 0:
 			a.SrcN = 0
